@@ -1,6 +1,7 @@
 package c18
 
 import (
+	"encoding/json"
 	"os"
 	"strconv"
 	"testing"
@@ -14,6 +15,22 @@ func TestTriage(t *testing.T) {
 	n, _ := strconv.Atoi(os.Getenv("VERIF_C18_TRIAGE"))
 	if n <= 0 {
 		t.Skip("triage aid; set VERIF_C18_TRIAGE=<programs>")
+	}
+	if f := os.Getenv("VERIF_C18_CASE"); f != "" { // evaluate one saved case n times
+		b, err := os.ReadFile(f)
+		if err != nil {
+			t.Fatal(err)
+		}
+		var rf struct {
+			Case Case `json:"case"`
+		}
+		if err := json.Unmarshal(b, &rf); err != nil {
+			t.Fatal(err)
+		}
+		for i := 0; i < n; i++ {
+			_ = evaluate(rf.Case)
+		}
+		return
 	}
 	only := os.Getenv("VERIF_C18_KIND")
 	done := 0
